@@ -390,6 +390,20 @@ def handle (line : String) : String :=
         | none => "ok" | some .noSpace => "nospace" | some .size => "size" | some (.other _) => "other"
       " ".intercalate (rs.map (fun (n, e) => s!"{n}:{en e}")) ++ " | " ++ (match out with | some o => hex o | none => "none")
     | _, _, _, _, _ => "bad-op"
+  -- w1auto <matcher> <propsByte> <dictCap> <bufSize> <sizeInHeader> <size> <eos> <call>... → as w1run, the match finder being
+  -- the Lean HashTable4 (0) / BinaryTree (1) model: the classic writer model computes the stream from the calls alone
+  | "w1auto" :: mt :: pb :: dc :: bs :: sih :: sz :: eos :: calls =>
+    match pb.toNat?.bind Lzma2.propsOfByte, dc.toNat?, bs.toNat?, sz.toNat? with
+    | some p, some dc, some bs, some sz =>
+      let cfg := W1.fill { props := p, dictCap := dc, bufSize := bs, sizeInHeader := boolOf sih, size := sz, eosMarker := boolOf eos }
+      let cl : List W1.Call := calls.map (fun c => if c = "C" then W1.Call.close else W1.Call.write (unhex (c.drop 1).toString))
+      let (rs, out) :=
+        if mt = "1" then W1.run cfg BT.BT4 (W1.init cfg (BT.St.new dc bs)) cl
+        else W1.run cfg HT.HT4 (W1.init cfg (HT.St.new dc bs)) cl
+      let en : Option W1.Err → String := fun e => match e with
+        | none => "ok" | some .noSpace => "nospace" | some .size => "size" | some (.other _) => "other"
+      " ".intercalate (rs.map (fun (n, e) => s!"{n}:{en e}")) ++ " | " ++ (match out with | some o => hex o | none => "none")
+    | _, _, _, _ => "bad-op"
   -- xwrun <blockSize> <len>... → uncompressed sizes of the blocks after Write(len)… Close
   | "xwrun" :: bs :: lens => match bs.toNat?, lens.mapM String.toNat? with
     | some bs, some lens => " ".intercalate ((XW.run bs lens).blocks.map toString)
